@@ -282,7 +282,12 @@ fn oracle_addr<Pk: KeyOf>(shape: &Shape, d: &Descriptor<Pk>) -> Result<(), Strin
 
 /// `xonly_leaves`: the keys of the wire are what the model's key table says (false only for tap
 /// trees whose leaf keys are FULL keys of atoms 0..: the model would push 33 bytes)
-fn emit_outputs<Pk: KeyOf>(out: &mut Out, shape: &Shape, secp: &Secp256k1<secp256k1::All>, model_keys: bool) -> bool {
+/// the text route for the two concrete key types of the output part
+trait ParseBack: MiniscriptKey + Sized { fn parse_desc(s: &str) -> Result<Descriptor<Self>, String>; }
+impl ParseBack for PublicKey { fn parse_desc(s: &str) -> Result<Descriptor<Self>, String> { Descriptor::<PublicKey>::from_str(s).map_err(|e| e.to_string()) } }
+impl ParseBack for XOnlyPublicKey { fn parse_desc(s: &str) -> Result<Descriptor<Self>, String> { Descriptor::<XOnlyPublicKey>::from_str(s).map_err(|e| e.to_string()) } }
+
+fn emit_outputs<Pk: KeyOf + ParseBack>(out: &mut Out, shape: &Shape, secp: &Secp256k1<secp256k1::All>, model_keys: bool) -> bool {
     let w = shape.wire();
     let built = build::<Pk>(shape);
     // constructor verdict against the entry-point model: a false rejection is a C mismatch
@@ -327,7 +332,96 @@ fn emit_outputs<Pk: KeyOf>(out: &mut Out, shape: &Shape, secp: &Secp256k1<secp25
     out.line(&format!("J rustoracle spk-from-explicit {} {}", w, v), "ok");
     out.line(&format!("J rustoracle addr-4nets {} {}", w, verdict(oracle_addr::<Pk>(shape, &d))), "ok");
     out.line(&format!("J rustoracle sighash {} {}", w, verdict(oracle_sighash::<Pk>(shape, &d))), "ok");
+    // R1: `Descriptor::desc_type` (every arm incl. the three `Sh` inner arms) and its `segwit_version`
+    let dt = d.desc_type();
+    out.line(&format!("C desctype {}", w), &format!("{:?}:{}", dt, match dt.segwit_version() { Some(v) => v.to_num().to_string(), None => "-".into() }));
+    // … and judged against the wrapper the harness built (independent of the model)
+    let want_dt = match shape { Shape::Bare(_) => "Bare:-", Shape::Pkh(_) => "Pkh:-", Shape::Wpkh(_) => "Wpkh:0", Shape::Wsh(_) => "Wsh:0",
+        Shape::Sh(_) => "Sh:-", Shape::ShWsh(_) => "ShWsh:0", Shape::ShWpkh(_) => "ShWpkh:0", Shape::Tr(..) => "Tr:1" };
+    let got_dt = format!("{:?}:{}", dt, match dt.segwit_version() { Some(v) => v.to_num().to_string(), None => "-".into() });
+    out.line(&format!("J rustoracle desctype {} {}", w, verdict(if got_dt == want_dt { Ok(()) } else { Err(format!("{} for a {}", got_dt, want_dt)) })), "ok");
+    // R1: the inner types' own methods (`Wsh::script_pubkey`, `Sh::inner_script`, `Pkh::address` …) give what
+    // the `Descriptor::*` dispatch gives (whose values are judged above)
+    out.line(&format!("J rustoracle inner-accessors {} {}", w, verdict(catch(|| oracle_inner::<Pk>(&d)).and_then(|x| x))), "ok");
+    // R1: the TEXT route: the printed descriptor parsed by `Descriptor::from_str` is the same descriptor with the
+    // same outputs.  (`from_str` may refuse what a constructor accepts - sanity of tap leaves -: C12's matter, counted.)
+    match catch(|| Pk::parse_desc(&d.to_string())) {
+        Ok(Ok(p)) => {
+            let bare_pkh = p != d && matches!(shape, Shape::Bare(Node::Check(x)) if matches!(**x, Node::PkH(_))) && p.script_pubkey() == spk;
+            // round-trip of the printed text is C10's claim; the outputs agree
+            if bare_pkh { out.count("observation: bare(c:pk_h(K)) prints as pkh(K) and parses back as the Pkh descriptor (same scriptPubKey)"); }
+            let v = if bare_pkh { Ok(()) } else if p != d { Err("parsed descriptor differs".to_string()) }
+                else if p.script_pubkey() != spk || hx_res(p.explicit_script()) != expl || hx_res(p.script_code()) != code || hx(&p.unsigned_script_sig()) != uss { Err("outputs of the parsed descriptor differ".to_string()) }
+                else { Ok(()) };
+            out.line(&format!("J rustoracle from-str-route {} {}", w, verdict(v)), "ok");
+        }
+        Ok(Err(_)) => out.count("observation: from_str refuses a descriptor a constructor built"),
+        Err(_) => out.line(&format!("J rustoracle from-str-route {} fail:PANIC", w), "ok"),
+    }
+    // R4: the USED object (spend-info cache filled, every accessor called) and its clone answer as the fresh one did
+    let v = (|| -> Result<(), String> {
+        let c = d.clone();
+        for (what, x) in [("used", &d), ("clone-of-used", &c)] {
+            if x.script_pubkey() != spk { return Err(format!("{} script_pubkey", what)); }
+            if hx_res(x.explicit_script()) != expl || hx_res(x.script_code()) != code || hx(&x.unsigned_script_sig()) != uss { return Err(format!("{} accessors", what)); }
+            if let Ok(a) = x.address(Network::Testnet4) { if a.script_pubkey() != spk { return Err(format!("{} address", what)); } }
+        }
+        let fresh = build::<Pk>(shape)?;
+        if fresh != d || fresh.script_pubkey() != d.script_pubkey() { return Err("fresh vs used".into()); }
+        Ok(())
+    })();
+    out.line(&format!("J rustoracle used-state {} {}", w, verdict(v)), "ok");
     true
+}
+
+/// the methods of `Bare`, `Pkh`, `Wpkh`, `Wsh`, `Sh`, `Tr` against the `Descriptor` dispatch
+fn oracle_inner<Pk: KeyOf>(d: &Descriptor<Pk>) -> Result<(), String> {
+    let spk = d.script_pubkey();
+    let expl = d.explicit_script().ok();
+    let code = d.script_code().ok();
+    let addr = |n: Network| d.address(n).ok().map(|a| a.to_string());
+    let chk = |what: &str, ok: bool| if ok { Ok(()) } else { Err(what.to_string()) };
+    match d {
+        Descriptor::Bare(b) => {
+            chk("Bare::script_pubkey", b.script_pubkey() == spk)?;
+            chk("Bare::inner_script", Some(b.inner_script()) == expl)?;
+            chk("Bare::ecdsa_sighash_script_code", Some(b.ecdsa_sighash_script_code()) == code)
+        }
+        Descriptor::Pkh(p) => {
+            chk("Pkh::script_pubkey", p.script_pubkey() == spk)?;
+            chk("Pkh::inner_script", Some(p.inner_script()) == expl)?;
+            chk("Pkh::ecdsa_sighash_script_code", Some(p.ecdsa_sighash_script_code()) == code)?;
+            for n in NETS { chk("Pkh::address", Some(p.address(n).to_string()) == addr(n))?; }
+            Ok(())
+        }
+        Descriptor::Wpkh(p) => {
+            chk("Wpkh::script_pubkey", p.script_pubkey() == spk)?;
+            chk("Wpkh::inner_script", Some(p.inner_script()) == expl)?;
+            chk("Wpkh::ecdsa_sighash_script_code", Some(p.ecdsa_sighash_script_code()) == code)?;
+            for n in NETS { chk("Wpkh::address", Some(p.address(n).to_string()) == addr(n))?; }
+            Ok(())
+        }
+        Descriptor::Wsh(x) => {
+            chk("Wsh::script_pubkey", x.script_pubkey() == spk)?;
+            chk("Wsh::inner_script", Some(x.inner_script()) == expl)?;
+            chk("Wsh::ecdsa_sighash_script_code", Some(x.ecdsa_sighash_script_code()) == code)?;
+            for n in NETS { chk("Wsh::address", Some(x.address(n).to_string()) == addr(n))?; }
+            Ok(())
+        }
+        Descriptor::Sh(x) => {
+            chk("Sh::script_pubkey", x.script_pubkey() == spk)?;
+            chk("Sh::inner_script", Some(x.inner_script()) == expl)?;
+            chk("Sh::ecdsa_sighash_script_code", Some(x.ecdsa_sighash_script_code()) == code)?;
+            chk("Sh::unsigned_script_sig", x.unsigned_script_sig() == d.unsigned_script_sig())?;
+            for n in NETS { chk("Sh::address", Some(x.address(n).to_string()) == addr(n))?; }
+            Ok(())
+        }
+        Descriptor::Tr(t) => {
+            chk("Tr::script_pubkey", t.script_pubkey() == spk)?;
+            for n in NETS { chk("Tr::address", Some(t.address(n).to_string()) == addr(n))?; }
+            Ok(())
+        }
+    }
 }
 
 fn emit_shape(out: &mut Out, shape: &Shape, secp: &Secp256k1<secp256k1::All>) -> bool {
@@ -364,7 +458,9 @@ fn part_outputs(out: &mut Out, thorough: bool, rng: &mut Rng, secp: &Secp256k1<s
     let mut expect = |out: &mut Out, s: Shape, accept: bool| {
         let ok = if matches!(s, Shape::Tr(..)) { build::<XOnlyPublicKey>(&s).is_ok() } else { build::<PublicKey>(&s).is_ok() };
         out.line(&format!("J buildexpect {} {} {}", s.wire(), if accept { "accept" } else { "reject" }, if ok { "OK" } else { "ERR" }), "ok");
-        out.line(&format!("C build {}", s.wire()), if ok { "OK" } else { "ERR" });
+        // R2: a case that is refused TODAY goes through every output judge the day a rule lets it through
+        // (emit_shape also writes the `C build` line)
+        emit_shape(out, &s, secp);
     };
     let cks = |n: u32| -> Vec<u32> { (0..n).collect() };
     let uks = |n: u32| -> Vec<u32> { (100..100 + n).collect() };
@@ -698,18 +794,21 @@ impl SKey {
 struct World {
     secp: Secp256k1<secp256k1::All>,
     xpubs: Vec<Xpub>,
+    xprvs: Vec<Xpriv>,
     cache: HashMap<(usize, Vec<u32>), PublicKey>,
 }
 impl World {
     fn new() -> Self {
         let secp = Secp256k1::new();
         let mut xpubs = vec![];
+        let mut xprvs = vec![];
         for i in 0..4u8 {
             let master = Xpriv::new_master(Network::Bitcoin, &[i + 1; 32]).unwrap();
             let xprv = if i == 3 { master.derive_priv(&secp, &[ChildNumber::from_hardened_idx(44).unwrap(), ChildNumber::from_normal_idx(1).unwrap()]).unwrap() } else { master };
             xpubs.push(Xpub::from_priv(&secp, &xprv));
+            xprvs.push(xprv);
         }
-        World { secp, xpubs, cache: HashMap::new() }
+        World { secp, xpubs, xprvs, cache: HashMap::new() }
     }
     /// independent BIP32 public derivation along normal indices
     fn derive(&mut self, x: usize, idx: &[u32]) -> PublicKey {
@@ -818,6 +917,9 @@ fn build_dpk(w: &World, c: &KCase) -> Result<Descriptor<DescriptorPublicKey>, St
 /// the descriptor TEXT with every key written out (`[fp/path]xpub…/1/<0;1>/*`), parsed by the library
 fn desc_text(shape: &Shape, texts: &BTreeMap<u32, String>) -> Result<String, String> {
     let mut s = if matches!(shape, Shape::Tr(..)) { format!("{:#}", build::<XOnlyPublicKey>(shape)?) } else { format!("{:#}", build::<PublicKey>(shape)?) };
+    // `bare(c:pk_h(K))` PRINTS as `pkh(K)`, which parses as the Pkh descriptor (same scriptPubKey, other type):
+    // the bare form has no text of its own, so it cannot be offered through the text routes
+    if matches!(shape, Shape::Bare(_)) && s.starts_with("pkh(") { return Err("bare c:pk_h has no text form".into()); }
     let atoms = shape.atoms_pre();
     for a in &atoms {
         let ph = if matches!(shape, Shape::Tr(..)) { xonly_key(*a).to_string() } else { full_key(*a).to_string() };
@@ -1100,6 +1202,25 @@ fn emit_keys(out: &mut Out, w: &mut World, c: &KCase, indices: &[u64]) {
             out.line(&format!("J rustoracle atindex-shape {} {} {}", wire, i, verdict(v)), "ok");
             let v = match independent_derived(w, c, i) { Some(ind) => catch(|| definite_outputs(dd, &ind)).and_then(|x| x), None => Err("no independent descriptor".into()) };
             out.line(&format!("J rustoracle definite-outputs {} {} {}", wire, i, verdict(v)), "ok");
+            // R4: `dd` is USED now (script_pubkey / address computed, taproot spend info cached): deriving from it,
+            // from its clone, and deriving the source descriptor a second time give the independent keys again
+            let ind = independent_derived(w, c, i);
+            let v = catch(|| -> Result<(), String> {
+                let ind = ind.as_ref().ok_or("no independent descriptor")?;
+                let used = dd.derived_descriptor(&w.secp);
+                if &used != ind || used.script_pubkey() != ind.script_pubkey() { return Err("derived_descriptor of a used definite descriptor".into()); }
+                let cl = dd.clone();
+                if cl.script_pubkey() != ind.script_pubkey() || &cl.derived_descriptor(&w.secp) != ind { return Err("clone of a used definite descriptor".into()); }
+                #[allow(deprecated)]
+                let again = d.at_derivation_index(iu).map_err(|e| format!("second derivation fails: {:?}", e))?;
+                if &again != dd { return Err("second at_derivation_index differs".into()); }
+                if again.script_pubkey() != ind.script_pubkey() { return Err("fresh second derivation vs used first".into()); }
+                #[allow(deprecated)]
+                let third = d.derived_descriptor(&w.secp, iu).map_err(|e| format!("{:?}", e))?;
+                if &third != ind { return Err("derived_descriptor after use".into()); }
+                Ok(())
+            }).and_then(|x| x);
+            out.line(&format!("J rustoracle derive-used-state {} {} {}", wire, i, verdict(v)), "ok");
         }
         let r2 = catch(|| d.derive_at_index(iu).into_result());
         let ans = match &r2 { Err(p) => p.clone(), Ok(Ok(dd)) => format!("ok:{}", table(&c.shape, dd, &mut |k| render_dpk(w, k.as_descriptor_public_key()))), Ok(Err(e)) => format!("err:{}", err_name(e)) };
@@ -1164,8 +1285,23 @@ fn emit_find(out: &mut Out, w: &mut World, c: &KCase, lo: u64, hi: u64, tgt: &st
     let d = match build_dpk(w, c) { Ok(d) => d, Err(_) => return };
     let any_wild = c.keys.values().any(|k| matches!(k, SKey::X { wc, .. } | SKey::M { wc, .. } if *wc != Wc::None));
     let tgt = if tgt == "self" && any_wild { "0" } else { tgt };
+    // R3: `trunc:<t>` / `ext:<t>` = the scriptPubKey at index t without its last byte / with one more byte,
+    // `empty` = the empty script, `foreign:<t>` = the same keys at index t under ANOTHER output type
+    let at = |w: &mut World, t: &str| t.parse::<u64>().ok().and_then(|t| independent_derived(w, c, t)).map(|x| x.script_pubkey());
     let target: ScriptBuf = match tgt {
         "none" => ScriptBuf::from_bytes(vec![0x51]),
+        "empty" => ScriptBuf::new(),
+        t if t.starts_with("trunc:") => match at(w, &t[6..]) { Some(s) => { let mut b = s.to_bytes(); b.pop(); ScriptBuf::from_bytes(b) }, None => ScriptBuf::from_bytes(vec![0x51]) },
+        t if t.starts_with("ext:") => match at(w, &t[4..]) { Some(s) => { let mut b = s.to_bytes(); b.push(0x00); ScriptBuf::from_bytes(b) }, None => ScriptBuf::from_bytes(vec![0x51]) },
+        t if t.starts_with("foreign:") => {
+            let other = match &c.shape {
+                Shape::Wsh(n) => Shape::ShWsh(n.clone()), Shape::ShWsh(n) => Shape::Wsh(n.clone()), Shape::Sh(n) => Shape::Bare(n.clone()),
+                Shape::Bare(n) => Shape::Sh(n.clone()), Shape::Pkh(k) => Shape::Wpkh(*k), Shape::Wpkh(k) => Shape::ShWpkh(*k), Shape::ShWpkh(k) => Shape::Pkh(*k),
+                Shape::Tr(k, _) => Shape::Tr(*k, vec![]),
+            };
+            let oc = KCase { shape: other, keys: c.keys.clone(), texts: None };
+            match t[8..].parse::<u64>().ok().and_then(|t| independent_derived(w, &oc, t)) { Some(x) if Some(x.script_pubkey()) != at(w, &t[8..]) => x.script_pubkey(), _ => ScriptBuf::from_bytes(vec![0x52]) }
+        }
         "self" => match independent_derived(w, c, 0) { Some(x) => x.script_pubkey(), None => ScriptBuf::from_bytes(vec![0x51]) },
         t => match independent_derived(w, c, t.parse::<u64>().unwrap()) { Some(x) => x.script_pubkey(), None => ScriptBuf::from_bytes(vec![0x51]) },
     };
@@ -1290,11 +1426,15 @@ fn key_shapes(rng: &mut Rng) -> Vec<Shape> {
     ];
     let mut out = vec![Shape::Pkh(0), Shape::Wpkh(0), Shape::ShWpkh(0)];
     for n in &seg {
+        // R1: every node under every wrapper arm (Wsh / Sh(Wsh) / Sh(Ms)), not a coin flip
         out.push(Shape::Wsh(n.clone()));
-        if rng.coin() { out.push(Shape::ShWsh(n.clone())); } else { out.push(Shape::Sh(n.clone())); }
+        out.push(Shape::ShWsh(n.clone()));
+        out.push(Shape::Sh(n.clone()));
     }
     out.push(Shape::Bare(c(0)));
     out.push(Shape::Bare(Node::Multi(1, vec![0, 1])));
+    out.push(Shape::Bare(ch(0)));
+    out.push(Shape::Bare(Node::SortedMulti(2, vec![0, 1, 2])));
     // taproot: internal key + leaves (atoms 200..)
     let tl: Vec<Node> = vec![
         c(0), Node::AndV(bx(v(c(0))), bx(c(1))), Node::MultiA(2, vec![0, 1, 2]), Node::SortedMultiA(1, vec![0, 1]),
@@ -1307,6 +1447,77 @@ fn key_shapes(rng: &mut Rng) -> Vec<Shape> {
         out.push(Shape::Tr(200, leaves));
     }
     out
+}
+
+/// `parse_descriptor` on a text whose keys are xprvs (hardened steps allowed: they are applied privately and
+/// move into the origin), WIF keys and public keys; the expected public descriptor is built here with
+/// rust-bitcoin's `derive_priv` / `Xpub::from_priv`; `to_string_with_secret` must give the text back
+fn emit_secret_route(out: &mut Out, w: &mut World, rng: &mut Rng, shape: &Shape) {
+    use miniscript::bitcoin::PrivateKey;
+    let tap = matches!(shape, Shape::Tr(..));
+    let unc_ok = matches!(shape, Shape::Pkh(_) | Shape::Sh(_) | Shape::Bare(_));
+    let mut texts: BTreeMap<u32, String> = BTreeMap::new();
+    let mut want: BTreeMap<u32, DescriptorPublicKey> = BTreeMap::new();
+    let mut n_secret = 0usize;
+    let mut seen: Vec<String> = vec![];
+    for (j, a) in shape.atoms_pre().iter().enumerate() {
+        let j32 = j as u32;
+        match (j + rng.below(2)) % 4 {
+            0 | 1 => {
+                // xprv/path[/*]; hardened steps up to the last hardened one are derived privately
+                let x = (j + rng.below(4)) % 4;
+                let path: Vec<Step> = match rng.below(4) { 0 => vec![Step::N(j32)], 1 => vec![Step::H(j32), Step::N(1)], 2 => vec![Step::N(2), Step::H(j32), Step::N(3)], _ => vec![] };
+                let wc = if rng.coin() { Wc::Unh } else { Wc::None };
+                let origin: Origin = if rng.below(3) == 0 { Some((90 + j32, vec![Step::H(84)])) } else { None };
+                let t = TKey { origin: origin.clone(), x, pre: path.clone(), alts: None, post: vec![], wc, style: 1 };
+                let text = t.text(w).replace(&w.xpubs[x].to_string(), &w.xprvs[x].to_string());
+                let last_h = path.iter().rposition(|s| matches!(s, Step::H(_))).map(|p| p + 1).unwrap_or(0);
+                let hard: Vec<ChildNumber> = path[..last_h].iter().map(|s| s.child()).collect();
+                let xprv = w.xprvs[x].derive_priv(&w.secp, &hard).unwrap();
+                let o = match (&origin, hard.is_empty()) {
+                    (Some((f, p)), _) => Some((fp(*f), DerivationPath::from(p.iter().map(|s| s.child()).chain(hard.iter().cloned()).collect::<Vec<_>>()))),
+                    (None, false) => Some((w.xprvs[x].fingerprint(&w.secp), DerivationPath::from(hard.clone()))),
+                    (None, true) => None,
+                };
+                want.insert(*a, DescriptorPublicKey::XPub(DescriptorXKey { origin: o, xkey: Xpub::from_priv(&w.secp, &xprv), derivation_path: dpath(&path[last_h..]), wildcard: real_wc(wc) }));
+                if !seen.contains(&text) { seen.push(text.clone()); n_secret += 1; }
+                texts.insert(*a, text);
+            }
+            2 => {
+                // WIF single key (compressed, or uncompressed where the context permits)
+                let id = if unc_ok && rng.coin() { 100 + j32 % 6 } else { 20 + j32 };
+                let pk = full_key(id);
+                let sk = PrivateKey { compressed: pk.compressed, network: miniscript::bitcoin::NetworkKind::Main, inner: ast::secret(id % 100) };
+                let text = sk.to_wif();
+                want.insert(*a, DescriptorPublicKey::Single(SinglePub { origin: None, key: SinglePubKey::FullKey(pk) }));
+                if !seen.contains(&text) { seen.push(text.clone()); n_secret += 1; }
+                texts.insert(*a, text);
+            }
+            _ => {
+                // a public key next to the secret ones
+                let k = if tap { SKey::Single { origin: None, id: 230 + j32 } } else { SKey::X { origin: None, x: j % 4, path: vec![Step::N(7)], wc: Wc::Unh } };
+                texts.insert(*a, match &k { SKey::Single { .. } => single_text(&k).unwrap(), _ => TKey { origin: None, x: j % 4, pre: vec![Step::N(7)], alts: None, post: vec![], wc: Wc::Unh, style: 1 }.text(w) });
+                want.insert(*a, to_real(w, &k));
+            }
+        }
+    }
+    let text = match desc_text(shape, &texts) { Ok(t) => t, Err(_) => return };
+    let label = format!("{}#{}", shape.wire(), texts.values().map(|t| if t.starts_with("xprv") || t.contains("]xprv") { "x" } else if t.len() < 60 { "w" } else { "p" }).collect::<String>());
+    let v = catch(|| -> Result<(), String> {
+        let (d, km) = Descriptor::<DescriptorPublicKey>::parse_descriptor(&w.secp, &text).map_err(|e| format!("parse_descriptor: {}", e))?;
+        let expect = build_with(shape, &|a| want.get(&a).cloned())?;
+        if d != expect { return Err("public descriptor is not the one rust-bitcoin's private derivation gives".into()); }
+        if km.len() != n_secret { return Err(format!("key map has {} entries for {} secret keys", km.len(), n_secret)); }
+        let back = d.to_string_with_secret(&km);
+        let back = back.split('#').next().unwrap_or("").to_string();
+        if back != text { return Err("to_string_with_secret does not give the text back".into()); }
+        // and the public text route reaches the same descriptor
+        let public = Descriptor::<DescriptorPublicKey>::from_str(&d.to_string()).map_err(|e| e.to_string())?;
+        if public != d { return Err("printed public descriptor parses to another one".into()); }
+        Ok(())
+    }).and_then(|x| x);
+    out.count("kdesc secret-key text route");
+    out.line(&format!("J rustoracle secret-route {} {}", label, verdict(v)), "ok");
 }
 
 fn part_keys(out: &mut Out, thorough: bool, rng: &mut Rng, w: &mut World) -> u64 {
@@ -1451,12 +1662,82 @@ fn part_keys(out: &mut Out, thorough: bool, rng: &mut Rng, w: &mut World) -> u64
                     keys.insert(*a, t.skey());
                 }
             }
+            if desc_text(&shape, &texts).is_err() { out.count("shape without a text form (bare c:pk_h)"); continue; }
             let c = KCase { shape, keys, texts: Some(texts) };
             n_cases += 1;
             out.count("kdesc built from text");
             emit_keys(out, w, &c, &[0, 7, 0x8000_0000]);
             emit_find(out, w, &c, 0, 9, "7");
         }
+    }
+    let fresh = |shape: &Shape| -> Shape { match shape {
+        Shape::Wsh(n) => { let mut x = 0; Shape::Wsh(renumber(n, &mut x)) }
+        Shape::Sh(n) => { let mut x = 0; Shape::Sh(renumber(n, &mut x)) }
+        Shape::ShWsh(n) => { let mut x = 0; Shape::ShWsh(renumber(n, &mut x)) }
+        Shape::Bare(n) => { let mut x = 0; Shape::Bare(renumber(n, &mut x)) }
+        s => s.clone(),
+    } };
+    // R1: every descriptor arm (Bare pk / pkh / multi / sortedmulti, Pkh, Wpkh, Sh x {Ms, Wsh, Wpkh, SortedMulti},
+    // Wsh x {Ms, SortedMulti}, Tr x {key only, leaves}) x every key form, deterministically; R3: every find
+    // boundary (first, last, end, empty range) and targets no derivation produces
+    for shape in key_shapes(rng) {
+        let shape = fresh(&shape);
+        let tap = matches!(shape, Shape::Tr(..));
+        let unc_ok = matches!(shape, Shape::Pkh(_) | Shape::Sh(_) | Shape::Bare(_));
+        for form in 0..7usize {
+            let mut keys = BTreeMap::new();
+            for (j, a) in shape.atoms_pre().iter().enumerate() {
+                let j = j as u32;
+                let origin = if j % 2 == 1 { Some((40 + j, vec![Step::H(48), Step::N(j)])) } else { None };
+                let k = match form {
+                    0 => SKey::X { origin, x: j as usize % 4, path: vec![Step::N(j), Step::N(1)], wc: Wc::None },
+                    1 => SKey::X { origin, x: j as usize % 4, path: vec![Step::N(j)], wc: Wc::Unh },
+                    2 => SKey::X { origin, x: j as usize % 4, path: vec![Step::N(j)], wc: if j == 0 { Wc::Hard } else { Wc::Unh } },
+                    3 => SKey::M { origin, x: j as usize % 4, paths: vec![vec![Step::N(0), Step::N(j)], vec![Step::N(1), Step::N(j)]], wc: Wc::Unh },
+                    4 => SKey::Single { origin, id: if tap { 203 + j } else { 3 + j } },
+                    5 => SKey::Single { origin, id: if unc_ok { 100 + j % 6 } else if tap { 3 + j } else { 13 + j } },
+                    _ => if j == 0 { SKey::X { origin, x: 1, path: vec![Step::N(9)], wc: Wc::Unh } } else { SKey::Single { origin, id: if tap { 203 + j } else { 3 + j } } },
+                };
+                keys.insert(*a, k);
+            }
+            let c = KCase { shape: shape.clone(), keys, texts: None };
+            n_cases += 1;
+            out.count("kdesc arm x key-form matrix");
+            emit_keys(out, w, &c, &[0, 0x7fff_ffff, 0x8000_0000]);
+            for (lo, hi, t) in [(0u64, 3u64, "0"), (0, 3, "2"), (0, 3, "3"), (2, 2, "2"), (3, 0, "1"), (1, 3, "0"),
+                                (0, 3, "trunc:1"), (0, 3, "ext:1"), (0, 3, "empty"), (0, 3, "foreign:1"), (0, 3, "self")] {
+                emit_find(out, w, &c, lo, hi, t);
+            }
+        }
+    }
+    // R1: the WHOLE designated corpus through the derivation routes (wildcard xpubs at every key position)
+    for ctx in CtxK::ALL {
+        for (i, nd) in ast::dimension_corpus(ctx).iter().enumerate() {
+            let shape = match ctx {
+                CtxK::Bare => Shape::Bare(nd.clone()),
+                CtxK::Legacy => Shape::Sh(nd.clone()),
+                CtxK::Segwitv0 => if i % 2 == 0 { Shape::Wsh(nd.clone()) } else { Shape::ShWsh(nd.clone()) },
+                CtxK::Tap => { let mut x = 201; Shape::Tr(200, vec![(0, renumber(nd, &mut x))]) }
+            };
+            let shape = fresh(&shape);
+            if shape.atoms_pre().is_empty() { continue; }
+            if (if ctx == CtxK::Tap { build::<XOnlyPublicKey>(&shape).is_err() } else { build::<PublicKey>(&shape).is_err() }) { continue; }
+            let mut keys = BTreeMap::new();
+            for (j, a) in shape.atoms_pre().iter().enumerate() {
+                keys.insert(*a, SKey::X { origin: None, x: j % 4, path: vec![Step::N(j as u32 / 4)], wc: if j % 3 == 2 { Wc::None } else { Wc::Unh } });
+            }
+            let c = KCase { shape, keys, texts: None };
+            n_cases += 1;
+            out.count("kdesc dimension-corpus");
+            emit_keys(out, w, &c, &[7]);
+            emit_find(out, w, &c, 5, 9, "7");
+        }
+    }
+    // R1: the SECRET-KEY text route: `Descriptor::parse_descriptor` (xprv / WIF -> public descriptor + key map)
+    // and `to_string_with_secret`, for every arm
+    for shape in key_shapes(rng) {
+        let shape = fresh(&shape);
+        emit_secret_route(out, w, rng, &shape);
     }
     n_cases
 }
@@ -1474,5 +1755,5 @@ pub fn run(out: &mut Out, thorough: bool, seed: u64) {
     out.note("descriptors_outputs", n1.to_string());
     out.note("sortedmulti_cases", n2.to_string());
     out.note("symbolic_key_descriptors", n3.to_string());
-    out.note("domain", "every descriptor wrapper x (all key forms | bounded-exhaustive + random miniscripts) x 4 networks; sortedmulti: all permutations n<=5, 50 random n<=20; symbolic keys: single/x-only/xpub(origin,path,wildcard,hardened wildcard)/multipath 1..4 x indices {0,1,7,2^31-1,2^31,2^32-1,random}".into());
+    out.note("domain", "every descriptor wrapper arm (bare pk/pk_h/multi/sortedmulti, pkh, wpkh, sh x {ms, wsh, wpkh, sortedmulti}, wsh x {ms, sortedmulti}, tr key-only / leaves, tr over full keys) x (all key forms | ast::dimension_corpus incl. wrapper towers + bounded-exhaustive + random miniscripts) x 5 networks, through Descriptor::*, the inner types' methods, desc_type, the text route, fresh and USED objects and clones; constructor verdicts judged; sortedmulti: all permutations n<=5, 50 random n<=20, constructors for every k; symbolic keys: single compressed/uncompressed/x-only, xpub(origin,path,wildcard,hardened wildcard), multipath 1..4 x indices {0,1,7,2^31-1,2^31,2^32-1,random}, every arm x 7 key forms, whole corpus through derivation, key-expression text in 3 marker styles, secret-key text route (xprv, WIF), derivation twice / from used objects, find at every range boundary and with truncated/extended/empty/foreign scriptPubKeys".into());
 }
